@@ -99,6 +99,26 @@ pub fn blobs<F: Float>(n: usize, p: usize, k: usize, seed: u64) -> (Array2<F>, A
     (cast2(&x), y)
 }
 
+/// OVERLAPPING blobs (centre spacing ~1, spread ~0.85): noisy, non-lattice data on which fitted
+/// quantities are generic floating-point numbers (impure tree splits, mixture weights whose sum
+/// is off from 1 by a few ulp, ...)
+pub fn blobs_overlap<F: Float>(n: usize, p: usize, k: usize, seed: u64) -> (Array2<F>, Array1<usize>) {
+    let mut g = Lcg(vseed(seed));
+    let mut x = Array2::zeros((n, p));
+    let mut y = Array1::zeros(n);
+    for i in 0..n {
+        // unequal class sizes: class of sample i from a skewed draw
+        let u = g.next();
+        let c = ((u * u) * k as f64) as usize % k;
+        y[i] = c;
+        for j in 0..p {
+            let centre = ((c * (j + 1)) % k) as f64 * 1.1 - 0.7 * j as f64;
+            x[(i, j)] = centre + g.normalish();
+        }
+    }
+    (cast2(&x), y)
+}
+
 pub fn regression<F: Float>(n: usize, p: usize, t: usize, seed: u64) -> (Array2<F>, Array2<F>) {
     let mut g = Lcg(vseed(seed));
     let mut x = Array2::zeros((n, p));
